@@ -24,8 +24,19 @@ pub struct ConIterOfVec<T: Send + Sync> {
 impl<T: Send + Sync> Drop for ConIterOfVec<T> {
     fn drop(&mut self) {
         let current = self.counter().current();
-        if current <= self.vec_len {
-            let _remaining_vec_to_be_dropped = unsafe { self.split_off_right(current) };
+        let vec = self.vec.get_mut();
+        let len = vec.len();
+        // SAFETY: elements current..len are in bounds, initialized and are not yielded to any caller;
+        // elements before current are moved out; hence, none of them can be dropped by the vector.
+        unsafe {
+            vec.set_len(0);
+            if current < len {
+                let remaining =
+                    std::ptr::slice_from_raw_parts_mut(vec.as_mut_ptr().add(current), len - current);
+                std::ptr::drop_in_place(remaining);
+            }
+            // releases the allocation of the vector, which does not contain any elements now
+            ManuallyDrop::drop(vec);
         }
     }
 }
